@@ -638,7 +638,14 @@ pub fn c10(seed: u64, tier: Tier) -> Vec<Episode> {
     w.put_iter = 2;
     w.strs = 3;
     let cfg = HistCfg { maps: maps.clone(), alphabet: g.rng.range(2, 60) as usize, kd: KeyDist::Short, vd: ValDist::Tiny, steps: g.rng.range(10, 150) as usize, w, one_bucket: false, reopen_params: false, xproc_every: if thorough { 1 } else { 0 }, bulk_max: 10 };
-    let st = history(&mut g, &cfg);
+    let mut st = history(&mut g, &cfg);
+    if kt.is_int() {
+        // conversions alone (no I/O): boundary and random integers
+        for _ in 0..60 {
+            let u = g.int_any();
+            st.push(Step::Convert { h: 0, k: if kt == KType::I64 { Key::I(u as i64) } else { Key::U(u) } });
+        }
+    }
     let checks = Checks { model: true, typed: true, iter: true, audit_traverse: true, audit_every: 50, ..Default::default() };
     let mut ep = base_episode("C10", "typed-keys", seed, maps, st, checks);
     ep.buggify = buggify(&mut g, seed);
